@@ -3,6 +3,10 @@
 import json, os
 root = os.path.dirname(os.path.dirname(os.path.abspath(__file__)))
 CHECKS = [
+ dict(id="C07", level="model_checking", engine="hist (explicit-state search over a real VM)", design="§5 C07",
+      technique="explicit-state exploration of operation histories on one real VM (every sequence up to a depth), differential oracle against a new VM, structural fingerprint of every Bytecode after every transition",
+      text="Operations: Run of 17 scripts chosen one per termination kind (incl. abort, propagated and recovered Go panics and value-stack overflow while outer frames are inside try, frame overflow, error in finally, module mutation, un-released Invoker), Clear, SetRecover on/off. Every history of <= 2 (thorough 3) operations, followed by Clear or by nothing, is followed by each of 27 observed runs; the outcome must equal the outcome on a new VM and no Bytecode may be modified. The VM's private state is read by reflection to count distinct states and to show that residue existed.",
+      note="Re-running the same Bytecode on the same VM without Clear/SetBytecode keeps its module cache by design and is not compared. The unspecified map iteration order is never observed."),
  dict(id="C06", level="fault_enumeration", engine="gen (fault-state enumeration on the real VM)", design="§5 C06",
       technique="exhaustive enumeration of failure kind x VM state at the instant of failure (value-stack fill, call depth) x handler context; invariant oracle plus follow-up probes on the same VM",
       text="19 failure kinds (ordinary runtime errors, throw, Go callbacks panicking with string/error/runtime error, callback panicking after re-entering the VM through an Invoker, objects whose methods panic, unbounded recursion, recursion with 200 locals) and literals overflowing the value stack, raised with the value stack filled to {0, 2040..2047} (thorough {0, 1, 1000, 2020..2047}) slots and at call depths {1, 1022, 1023} (thorough {1, 2, 1019..1023}) in 9 handler contexts (none, try-catch, try-finally, in catch, in finally, handler in a caller, callback child VM with and without enclosing try, module body). No panic escapes Run, Run returns value xor error, ordinary errors inside try-catch are caught, the same script gives the same outcome again on the same VM and five probe scripts (incl. uncaught errors at depth 0 and 5) give their known results afterwards.",
